@@ -604,10 +604,21 @@ def r6(rr, repo):
         _, lst, idx = stmt_list_containing(n)
         st = {U(s.targets[0]): U(s.value) for s in lst[idx + 1:] if isinstance(s, ast.Assign) and len(s.targets) == 1}
         rr.ob('the first number is the width bound, the second the height bound', st.get('xform.width') == f'int({a})' and st.get('xform.height') == f'int({c})', mod, n, witness=str({k: v for k, v in st.items() if k.startswith('xform.')}), key='size-fields')
-        asp = [s for s in lst[idx + 1:] if isinstance(s, ast.If) and isinstance(s.test, ast.Compare) and U(s.test.left) == b]
-        ok = bool(asp) and isinstance(asp[0].test.ops[0], ast.NotEq) and q.const_str(asp[0].test.comparators[0]) and asp[0].test.comparators[0].value == 'x' and \
-            any(isinstance(x, ast.Assign) and U(x.targets[0]) == 'xform.aspect' and U(x.value) == 'False' for x in asp[0].body)
-        rr.ob("the aspect mode is switched off exactly when the separator is not 'x'", ok, mod, asp[0] if asp else n, key='size-aspect')
+        asp = [s for s in lst[idx + 1:] if isinstance(s, ast.If) and isinstance(s.test, ast.Compare) and len(s.test.ops) == 1 and U(s.test.left) in (b, f'{b}.lower()', f'{b}.upper()')
+               and q.const_str(s.test.comparators[0]) is not None]
+        if not asp:
+            rr.unresolved("Util.normalize_config: no test of the size separator against a literal decides the aspect mode", mod, n, key='size-aspect-form')
+            continue
+        t = asp[0].test
+        lit, folded, ne = t.comparators[0].value, U(t.left) != b, isinstance(t.ops[0], ast.NotEq)
+        icase = any('IGNORECASE' in U(a) or U(a).endswith('re.I') for (f_, n_), (p_, st_) in pats.items() if f_ == UT and n_ == 're_size' for a in st_.value.args[1:])
+        off_when_plus = (lit == '+' and not ne) or (lit.lower() == 'x' and ne)       # the branch taken for '+' ...
+        stores_off = any(isinstance(x, ast.Assign) and U(x.targets[0]) == 'xform.aspect' and U(x.value) == 'False' for x in asp[0].body)
+        rr.ob("the aspect mode is switched off on the '+' branch of the separator test", off_when_plus and stores_off, mod, asp[0], witness=U(t), key='size-aspect')
+        # ... and only for '+': the pattern matches the letter in either case, so a test against the letter has to fold the case (or test for '+', which has none)
+        exact = lit == '+' or not icase or (folded and lit == (lit.lower() if U(t.left).endswith('.lower()') else lit.upper()))
+        rr.ob("the separator test treats every spelling the pattern accepts alike: the pattern is case-insensitive, so 'X' must select the same (aspect-keeping) mode as 'x'", exact, mod, asp[0],
+              witness=f'{U(t)} with a {"case-insensitive" if icase else "case-sensitive"} pattern', key='size-aspect-case')
     un5 = [n for n in unp if len(n.targets[0].elts) == 5]
     for n in un5:
         names = [U(e) for e in n.targets[0].elts]
@@ -640,6 +651,26 @@ def r7(rr, repo):
           witness=U(st[0].value)[:80] if st else 'no store', key='xforms-kept')
     other = [n for n in ast.walk(setup) if isinstance(n, ast.Assign) and any(isinstance(t, ast.Attribute) and 'xform' in t.attr and t.attr != 'xforms' for t in n.targets)]
     rr.ob('no second list of transforms is derived in setup', not other, mod, other[0] if other else setup, witness='; '.join(U(n.targets[0]) for n in other), key='xforms-single-list')
+    # normalize_config keeps every configured transform, in the order written: one loop over the list, whose every iteration either raises or appends exactly its own transform
+    _, nc = repo.find(f'{UT}::Util.normalize_config')
+    nloops = [n for n in walk_scope(nc) if isinstance(n, ast.For) and U(n.iter) == 'xforms' and isinstance(n.target, ast.Name)]
+    rr.floor('normalising loops over the configured transforms', len(nloops), 1, mod, nc)
+    for lp in nloops[:1]:
+        var = lp.target.id
+        apps = [c for c in ast.walk(lp) if isinstance(c, ast.Call) and isinstance(c.func, ast.Attribute) and c.func.attr in ('append', 'extend', 'insert') and isinstance(c.func.value, ast.Name)]
+        acc = {c.func.value.id for c in apps}
+        ok = len(apps) == 1 and apps[0].func.attr == 'append' and U(apps[0].args[0]) == var and not q.guards_of(apps[0], stop=lp) and q.enclosing_stmt(apps[0]) is lp.body[-1]
+        skips = [n for n in walk_scope(lp) if isinstance(n, (ast.Continue, ast.Break, ast.Return)) and n is not lp]
+        rr.ob('normalize_config keeps every configured transform: each pass of its loop ends by appending that transform (unconditionally, last statement) and nothing leaves a pass early except an error', ok and not skips, mod,
+              skips[0] if skips else (apps[0] if apps else lp), witness=(f'{type(skips[0]).__name__.lower()} at line {skips[0].lineno}' if skips else '; '.join(U(c)[:60] + (' under ' + ' && '.join(U(t) for t, _ in q.guards_of(c, stop=lp))[:80] if q.guards_of(c, stop=lp) else '') for c in apps)) or 'no append', key='normalize-keeps-all')
+        if len(acc) == 1:
+            a = next(iter(acc))
+            muts = [c for c in q.calls_in(nc) if isinstance(c.func, ast.Attribute) and U(c.func.value) == a and c.func.attr in ('pop', 'remove', 'insert', 'sort', 'reverse', 'clear', 'extend')] + \
+                   [n for n in ast.walk(nc) if isinstance(n, ast.Delete) and any(U(t).startswith(a + '[') for t in n.targets)] + \
+                   [n for n in ast.walk(nc) if isinstance(n, ast.Assign) and any(U(t).startswith(a + '[') for t in n.targets)]
+            rr.ob('the normalised list is only ever appended to', not muts, mod, muts[0] if muts else lp, witness=U(muts[0])[:80] if muts else 'append only', key='normalize-append-only')
+            fin = [n for n in walk_scope(nc) if isinstance(n, ast.Assign) and any(U(t) == 'config.xforms' for t in n.targets)]
+            rr.ob('the normalised list as a whole becomes config.xforms', len(fin) == 1 and U(fin[0].value) == a and fin[0].lineno > lp.end_lineno, mod, fin[0] if fin else nc, witness=U(fin[0].value)[:60] if fin else 'no store', key='normalize-stored-whole')
     # process(): chains start empty
     chains = [k for k in ast.walk(proc) if isinstance(k, ast.keyword) and k.arg == 'xforms']
     rr.floor('per-topic chain initialisations', len(chains), 1, mod, proc)
